@@ -1,6 +1,7 @@
 package engine
 
 import (
+	"context"
 	"encoding/json"
 	"flag"
 	"fmt"
@@ -301,7 +302,7 @@ func CmdCheck(args []string) int {
 					defer func() { <-sem2 }()
 					o := rd.fr.Obls[rd.i]
 					f := filepath.Join(workDir, fmt.Sprintf("%s.redo%d.smt2", sanitize(rd.fr.Func), k))
-					os.WriteFile(f, []byte(rd.fr.Ctx.Script(map[int]bool{rd.i: true})), 0o644)
+					os.WriteFile(f, []byte(strings.ReplaceAll(strings.ReplaceAll(rd.fr.Ctx.Script(map[int]bool{rd.i: true}), "\n(pop 1)", "\n"), "(push 1) ; OBL", "; OBL")), 0o644)
 					for _, sv := range Solvers {
 						res, dur := runSolver(sv, f, 1, timeout*4)
 						mu.Lock()
@@ -626,30 +627,27 @@ func solveChunk(fr *FuncResult, idxs map[int]bool, id int, workDir string, timeo
 			}
 		}
 	}
-	for si, s := range Solvers {
-		if len(pending) == 0 && !(cross && si == 1) {
-			break
-		}
+	// stage 1: the whole chunk, incrementally (push/pop), on the first solver with a
+	// short budget - almost everything goes here. thorough: also on the second
+	// solver, for agreement.
+	stage1 := func(si int, to int, all bool) {
+		s := Solvers[si]
 		var run []int
 		sel := map[int]bool{}
 		for _, i := range order {
 			if covers[i] {
 				continue
 			}
-			if pending[i] || (cross && si == 1) {
+			if pending[i] || all {
 				run = append(run, i)
 				sel[i] = true
 			}
 		}
 		if len(run) == 0 {
-			continue
+			return
 		}
 		f := fmt.Sprintf("%s.s%d.smt2", base, si)
 		os.WriteFile(f, []byte(fr.Ctx.Script(sel)), 0o644)
-		to := timeoutMs
-		if si > 0 && !cross {
-			to = timeoutMs / 2
-		}
 		res, dur := runSolver(s, f, len(run), to)
 		mu.Lock()
 		solverTime[s.Name] += dur.Milliseconds()
@@ -668,6 +666,84 @@ func solveChunk(fr *FuncResult, idxs map[int]bool, id int, workDir string, timeo
 				o.Result, o.Solver = res[k], s.Name
 			}
 		}
+	}
+	short := timeoutMs
+	if short > 3000 {
+		short = 3000
+	}
+	if cross {
+		stage1(0, short, false)
+		stage1(1, timeoutMs, true)
+	} else {
+		// the two z3 generations have very different strengths on these goals
+		// (4.8 decides most quantified heap goals in milliseconds where 5.1 spends
+		// its whole budget, 5.1 decides arithmetic goals 4.8 cannot): 4.8 first with
+		// a one second budget, then 5.1 on what is left
+		stage1(1, 1000, false)
+		stage1(0, short, false)
+	}
+	// stage 2: every obligation still undecided, alone, as a portfolio run in
+	// parallel: each solver on the incremental form (push/pop) and the first
+	// solver also on the plain form (no push/pop: full preprocessing). Which form
+	// wins differs from goal to goal; the first unsat (or sat) decides.
+	for _, i := range order {
+		if !pending[i] {
+			continue
+		}
+		o := fr.Obls[i]
+		inc := fr.Ctx.Script(map[int]bool{i: true})
+		plain := strings.ReplaceAll(strings.ReplaceAll(inc, "\n(pop 1)", "\n"), "(push 1) ; OBL", "; OBL")
+		fi := fmt.Sprintf("%s.o%d.smt2", base, i)
+		fp := fmt.Sprintf("%s.o%d.plain.smt2", base, i)
+		os.WriteFile(fi, []byte(inc), 0o644)
+		os.WriteFile(fp, []byte(plain), 0o644)
+		type att struct {
+			s Solver
+			f string
+		}
+		atts := []att{{Solvers[0], fi}, {Solvers[0], fp}}
+		for _, sv := range Solvers[1:] {
+			atts = append(atts, att{sv, fi})
+		}
+		type outc struct {
+			res  string
+			name string
+			dur  time.Duration
+		}
+		ch := make(chan outc, len(atts))
+		pctx, pcancel := context.WithCancel(context.Background())
+		for _, a := range atts {
+			go func(a att) {
+				res, dur := runSolverCtx(pctx, a.s, a.f, 1, timeoutMs)
+				n := a.s.Name
+				if a.f == fp {
+					n += "(plain)"
+				}
+				ch <- outc{res[0], n, dur}
+			}(a)
+		}
+		decided := false
+		for range atts {
+			r := <-ch
+			mu.Lock()
+			solverTime[strings.TrimSuffix(r.name, "(plain)")] += r.dur.Milliseconds()
+			mu.Unlock()
+			if decided {
+				continue
+			}
+			if r.res == "unsat" || r.res == "sat" {
+				o.Result, o.Solver = r.res, r.name
+				o.TimeMs += r.dur.Milliseconds()
+				decided = true
+				if r.res == "unsat" {
+					delete(pending, i)
+				}
+				pcancel() // the others are no longer needed
+			} else if o.Result == "" || o.Result == "error" {
+				o.Result, o.Solver = r.res, r.name
+			}
+		}
+		pcancel()
 	}
 }
 
